@@ -229,7 +229,9 @@ def block_lists():
     from hypothesis import strategies as st
 
     names = st.sampled_from(["n%d" % i for i in range(8)])
-    line = st.sampled_from(["l0", "l1", "l2", "job.x = 1", "import a", "{{ not_a_template }}", "l0"])
+    # script lines are Python: indentation, trailing blanks, quotes and template-engine syntax must arrive unchanged
+    line = st.sampled_from(["l0", "l1", "l2", "job.x = 1", "import a", "{{ not_a_template }}", "l0", "if job.x:", "    job.y = 2", "\tjob.z = 3", "trailing = 1  ",
+                            "s = 'quo\"ted'", "# comment", "a = b < c & d", "{% raw %}", "        deep = 1"])
     script = st.lists(line, min_size=0, max_size=3).map(tuple)
 
     @st.composite
